@@ -37,6 +37,9 @@ QUICK = [
     ('file', 'utf16.xsl', 's1.xml'),
     ('compile+stream', 'ext.xsl', 's1.xml'),
     ('prebuilt', 'lazy.xsl', 's1.xml'),
+    # result tree fragments turned into node-sets: key tables, counters and sorts whose document is a fragment owned by the execution context
+    ('stream', 'rtf.xsl', 's1.xml'),
+    ('prebuilt+stream', 'rtf.xsl', 's1.xml'),
 ]
 
 
@@ -53,7 +56,7 @@ def scenarios(tier, seed):
         import random
         r = random.Random(seed)
         steps = ['ctor', 'compile', 'parse', 'parsex', 'stream', 'prebuilt', 'prebuiltx', 'callback', 'dom', 'builder', 'params', 'file']
-        sheets = ['s1.xsl', 'params.xsl', 'html.xsl', 'text.xsl', 'autohtml.xsl', 'enc.xsl', 'utf16.xsl', 'ext.xsl', 'lazy.xsl']
+        sheets = ['s1.xsl', 'params.xsl', 'html.xsl', 'text.xsl', 'autohtml.xsl', 'enc.xsl', 'utf16.xsl', 'ext.xsl', 'lazy.xsl', 'rtf.xsl']
         for i in range(150):
             seq = '+'.join(r.choice(steps) for _ in range(r.randrange(2, 6)))
             out.append((seq, r.choice(sheets), 's1.xml', r.choice(('bad_alloc', 'oom')), 'plain'))
